@@ -15,4 +15,9 @@ def run():
     if DEDUCTIVE:
         c.deductive(DEDUCTIVE)
     _pipeline.pipeline_part(c, "C06")
+    # a fresh rule object per file: what one file's configuration does to a rule must not be visible when the next file is checked
+    from bounded import cli, corpus
+    from pyvc.checklib import Finding
+
+    cli.option_leak_part(c, Finding, corpus)
     return c.finish({"explanation": META["text"]})
